@@ -101,7 +101,7 @@ CHECKS.update({
             "Retention read through the verif_retained hook.",
             "deterministic simulation: run-outcome sequences vs counter model", "§5 C14"),
     "C33": (ENGINE_C, "exploration",
-            "Histories interleaving successful runs with forced retryable/fatal failures; everything a client can observe (ready, session, serial, data, retained, ETag, Last-Modified, created, pending notify subscriber) is identical before and after a failed update cycle. One run in sixteen goes through Engine A instead: after a generated world history served through the real server update cycle, a final run meets a failing store (a stored trust-anchor, publication-point or status file that cannot be read or written, or an unusable tmp directory); the run must fail and leave session, serial, data set and the /json document unchanged, or succeed with exactly the model's fault-free result.",
+            "Histories interleaving successful runs with forced retryable/fatal failures; everything a client can observe (ready, session, serial, data, retained, ETag, Last-Modified, created, pending notify subscriber) is identical before and after a failed update cycle. One run in sixteen goes through Engine A instead: after a generated world history served through the real server update cycle, a final run meets a failing store (a stored trust-anchor, publication-point or status file that cannot be read or written, an unusable tmp directory, or an injected I/O error at the n-th file operation of the run, n seeded over the number of operations of the previous run: hook H13 in utils::fatal and the store); the run must fail and leave session, serial, data set and the /json document unchanged, or succeed with exactly the model's fault-free result.",
             "Forced failures happen at the start of ValidationReport::process (hook H5); mid-run failures are the store faults of Engine A (fatal) and, under C40, corrupt RRDP archives (retryable).",
             "deterministic simulation: forced run failures, before/after observation equality", "§5 C33"),
 })
